@@ -3,7 +3,7 @@
 From Model Require Import Bytes Prim Tables Cert KAC Mapping Sig LS RI Validate.
 From Gen Require Import Tables Validators.
 From Coq Require Import Lia.
-From Proofs Require Import BytesLemmas CtorProofs MappingProofs CtorRT ValidatorTie ElsChain LS2Layers Retail SpecRI LS2Accept.
+From Proofs Require Import BytesLemmas CtorProofs MappingProofs CtorRT ValidatorTie ElsChain LS2Layers Retail SpecRI LS2Accept MetaAccept.
 Open Scope Z_scope.
 
 Theorem C14_signature : forall d t s, new_signature_from_bytes d t = Ok s ->
@@ -242,6 +242,19 @@ Proof.
   - vm_compute. reflexivity.
   - eexists. split; [vm_compute; reflexivity|]. vm_compute. discriminate.
 Qed.
+(* MetaLeaseSet, likewise: header fields within their widths, 0..16 entries each with a 32-byte
+   hash, a valid entry type, 32-bit expiry, one-byte cost and a valid properties list *)
+Theorem C14_meta_built_value_parses_back : forall l opts eopts b x r0 r,
+  meta_fits l opts eopts -> wf x -> read_destination x = Ok (ml_dest l, r0) ->
+  meta_lease_set_bytes l = Ok b -> wf (b ++ r) ->
+  Gen.Consts.c_meta_leaseset_META_LEASESET_MIN_SIZE <= Z.of_nat (length (b ++ r)) ->
+  exists l', read_meta_lease_set (b ++ r) = Ok (l', r) /\ meta_lease_set_bytes l' = Ok b /\
+    ml_published l' = ml_published l /\ ml_expires l' = ml_expires l /\ ml_flags l' = ml_flags l /\
+    ml_offline l' = ml_offline l /\ map_values (ml_options l') = map Proofs.MapRT.wire_pair opts /\ ml_num l' = ml_num l /\
+    Forall2 (fun p e' => mentry_same (fst p) e' (snd p)) (combine (ml_entries l) eopts) (ml_entries l') /\
+    sig_bytes (ml_sig l') = sig_bytes (ml_sig l).
+Proof. exact meta_built_value_parses_back. Qed.
+Print Assumptions C14_meta_built_value_parses_back.
 (* RouterInfo built from the specification's fields (what NewRouterInfo assembles): parses back
    with an empty remainder to a value with the same bytes *)
 Theorem C14_router_info_built_value_parses_back : forall (s c : N) (cl sl : nat) pub pad spk extra published addrs opts n sg,
